@@ -36,7 +36,7 @@ def world(I, status1, status2=(True, True, True)):
     for pid, denoms, st in (('p1', ['uA', 'uB'], status1), ('p2', ['uB', 'uC'], status2)):
         x = I.sym('x' + pid[1], lo=1, hi=U128 // 4)
         y = I.sym('y' + pid[1], lo=1, hi=U128 // 4)
-        S = I.sym('S' + pid[1], lo=MINLIQ + 1, hi=U128 // 4)
+        S = I.sym('S' + pid[1], lo=MINLIQ, hi=U128 // 4)
         put_pool(I, pool_info(pid, denoms, [6, 6], [x, y], xyk(), fee_cfg, status=pool_status(*st)))
         res[pid] = (x, y, S)
         b.supply[LPD[pid]] = S
